@@ -10,6 +10,9 @@ require (
 	github.com/mailru/easyjson v0.7.7
 )
 
-require golang.org/x/exp v0.0.0-20220823124025-807a23277127 // indirect
+require (
+	github.com/josharian/intern v1.0.0 // indirect
+	golang.org/x/exp v0.0.0-20220823124025-807a23277127 // indirect
+)
 
 replace github.com/launchdarkly/go-server-sdk-evaluation/v3 => /repo
